@@ -14,9 +14,9 @@ int main(void)
     vp_env_init();
     int nfl = IN_RANGE(0, NF);
     int rd0 = IN_RANGE(0, 1 << 20), rd1 = IN_RANGE(0, 1 << 20);
-    CP[0].readers = rd0; CP[1].readers = rd1;
-    vp_slot = 0; TC[0].super.nb_flows = nfl;
-    parsec_dtd_task_t *t = parsec_dtd_create_and_initialize_task(&TP, &TC[0].super, 0);
+    CP(0).readers = rd0; CP(1).readers = rd1;
+    vp_slot = 0; TC(0).super.nb_flows = nfl;
+    parsec_dtd_task_t *t = parsec_dtd_create_and_initialize_task(&TP, &TC(0).super, 0);
     int expect_again = 0, nwrite_blocked = 0, nwrite_free = 0, nread_busy = 0;
     for(int i = 0; i < NF; i++) if(i < nfl) {
         int mode = IN_RANGE(1, 4);                    /* 1 INPUT 2 OUTPUT 3 INOUT 4 ATOMIC_WRITE */
@@ -24,8 +24,8 @@ int main(void)
         int which = IN_RANGE(-1, 1);                  /* -1: no copy (NULL tile / not yet forwarded) */
         int op = (mode << 20) | other;
         FLOW_OF(t, i)->op_type = op;
-        FLOW_OF(t, i)->tile = (which < 0) ? NULL : (which == 0 ? &TL[0] : &TL[1]);
-        t->super.data[i].data_in = (which < 0) ? NULL : (which == 0 ? &CP[0] : &CP[1]);
+        FLOW_OF(t, i)->tile = (which < 0) ? NULL : (which == 0 ? &TL(0) : &TL(1));
+        t->super.data[i].data_in = (which < 0) ? NULL : (which == 0 ? &CP(0) : &CP(1));
         int readers = (which == 0) ? rd0 : rd1;
         if(which >= 0 && (mode == 2 || mode == 3)) { if(readers > 0) { expect_again = 1; nwrite_blocked++; } else nwrite_free++; }
         if(which >= 0 && (mode == 1 || mode == 4) && readers > 0) nread_busy++;
@@ -33,8 +33,8 @@ int main(void)
     int rc = data_lookup_of_dtd_task(&ES, &t->super);
     VASSERTM(rc == PARSEC_HOOK_RETURN_AGAIN || rc == PARSEC_HOOK_RETURN_DONE, "data_lookup returns DONE or AGAIN only");
     VASSERTM((rc == PARSEC_HOOK_RETURN_AGAIN) == expect_again, "data_lookup returns AGAIN iff a written (OUTPUT/INOUT) copy still has readers");
-    VASSERTM(CP[0].readers == rd0 && CP[1].readers == rd1, "data_lookup does not touch the reader counts");
-    VASSERTM(CP[0].super.super.obj_reference_count == 1 && CP[1].super.super.obj_reference_count == 1, "data_lookup does not retain/release copies");
+    VASSERTM(CP(0).readers == rd0 && CP(1).readers == rd1, "data_lookup does not touch the reader counts");
+    VASSERTM(CP(0).super.super.obj_reference_count == 1 && CP(1).super.super.obj_reference_count == 1, "data_lookup does not retain/release copies");
     if(rc == PARSEC_HOOK_RETURN_AGAIN && nfl == NF && nwrite_free >= 1 && nwrite_blocked == 1) VWITNESS("AGAIN: one blocked write flow behind a free write flow");
     if(rc == PARSEC_HOOK_RETURN_DONE && nfl == NF && nread_busy >= 1 && nwrite_free >= 1) VWITNESS("DONE: readers only on flows that read");
     return 0;
